@@ -17,6 +17,12 @@ pub struct ConcOut {
 }
 
 pub fn run_case(rng: &mut Rng, max_len: usize) -> ConcOut {
+    run_case_kind(rng, max_len, false)
+}
+
+/// `storm`: in rounds, one worker takes the shared task out of the working set (completed + rebuild),
+/// then all workers make it pending at the same moment
+pub fn run_case_kind(rng: &mut Rng, max_len: usize, storm: bool) -> ConcOut {
     let n = 2 + rng.below(7) as usize;
     let steps = 3 + rng.below(max_len as u64) as usize;
     let dir = tempfile::TempDir::new_in(crate::work_dir()).unwrap();
@@ -25,7 +31,7 @@ pub fn run_case(rng: &mut Rng, max_len: usize) -> ConcOut {
     {
         let st = block_on(SqliteStorage::new(&path, AccessMode::ReadWrite, true)).unwrap();
         let mut r = Replica::new(st);
-        block_on(r.commit_operations(vec![Operation::UndoPoint, Operation::Create { uuid: Uuid::from_u128(1) }])).unwrap();
+        block_on(r.commit_operations(vec![Operation::UndoPoint, Operation::Create { uuid: Uuid::from_u128(1) }, Operation::Create { uuid: Uuid::from_u128(2) }])).unwrap();
     }
     let barrier = Arc::new(Barrier::new(n));
     let mut handles = Vec::new();
@@ -39,6 +45,12 @@ pub fn run_case(rng: &mut Rng, max_len: usize) -> ConcOut {
                 Ok(s) => s,
                 Err(e) => {
                     barrier.wait();
+                    if storm {
+                        // keep in step with the others' barriers
+                        for _ in 0..12 {
+                            barrier.wait();
+                        }
+                    }
                     log.push(format!("W {} OPEN -> err:{}", w, e.to_string().replace(' ', "_")));
                     return log;
                 }
@@ -48,13 +60,40 @@ pub fn run_case(rng: &mut Rng, max_len: usize) -> ConcOut {
             let mut shared_val: Option<String> = None;
             let mut mine: Vec<(Uuid, Option<String>, Option<String>)> = Vec::new(); // own tasks: status, value of `n`
             barrier.wait();
+            if storm {
+                for round in 0..6u32 {
+                    let ts = Utc.timestamp_opt(1_700_000_000 + round as i64, (w as u32) * 1000).unwrap();
+                    if w == 0 {
+                        let ops = vec![Operation::UndoPoint, Operation::Update { uuid: Uuid::from_u128(2), property: "status".into(), old_value: Some("pending".into()), value: Some(format!("completed")), timestamp: ts }];
+                        let txt = fmt_op_list(&ops);
+                        let res = block_on(r.commit_operations(ops));
+                        log.push(format!("W {} C {} -> {}", w, txt, if res.is_ok() { "ok" } else { "err" }));
+                        let res = block_on(r.rebuild_working_set(false));
+                        log.push(format!("W {} R 0 -> {}", w, if res.is_ok() { "ok" } else { "err" }));
+                    }
+                    barrier.wait();
+                    let ops = vec![Operation::UndoPoint, Operation::Update { uuid: Uuid::from_u128(2), property: "status".into(), old_value: Some("completed".into()), value: Some("pending".into()), timestamp: ts },
+                        Operation::Update { uuid: Uuid::from_u128(2), property: format!("p{}", w), old_value: None, value: Some(format!("r{}", round)), timestamp: ts }];
+                    let txt = fmt_op_list(&ops);
+                    let res = block_on(r.commit_operations(ops));
+                    log.push(format!("W {} C {} -> {}", w, txt, if res.is_ok() { "ok" } else { "err" }));
+                    barrier.wait();
+                }
+                return log;
+            }
             for _ in 0..steps {
                 match wrng.below(10) {
                     0..=5 => {
                         seq += 1;
                         let ts = Utc.timestamp_opt(1_700_000_000 + seq as i64, (w as u32) * 1000).unwrap();
                         let mut ops = vec![Operation::UndoPoint];
-                        match wrng.below(4) {
+                        match wrng.below(5) {
+                            4 => {
+                                // one task whose status everybody changes (what the previous value was is a
+                                // guess: such a batch is never undone, and replay does not depend on it)
+                                let (old, new) = if wrng.below(3) > 0 { ("completed", "pending") } else { ("pending", "completed") };
+                                ops.push(Operation::Update { uuid: Uuid::from_u128(2), property: "status".into(), old_value: Some(old.into()), value: Some(new.into()), timestamp: ts });
+                            }
                             0 | 1 => {
                                 let uuid = Uuid::from_u128((w as u128 + 1) * 100_000 + seq as u128);
                                 ops.push(Operation::Create { uuid });
@@ -98,6 +137,20 @@ pub fn run_case(rng: &mut Rng, max_len: usize) -> ConcOut {
                         let got = block_on(r.get_undo_operations());
                         match got {
                             Ok(ops) => {
+                                // a worker only takes back its OWN last batch: what it recorded as old values
+                                // stays true only if nobody else removes its operations behind its back
+                                // (read-then-write races between applications are not the storage's business)
+                                let own = ops.iter().all(|o| match o {
+                                    Operation::UndoPoint => true,
+                                    Operation::Create { uuid } | Operation::Delete { uuid, .. } => uuid.as_u128() / 100_000 == w as u128 + 1,
+                                    Operation::Update { uuid, property, .. } => {
+                                        uuid.as_u128() / 100_000 == w as u128 + 1 || (uuid.as_u128() == 1 && *property == format!("p{}", w))
+                                    }
+                                });
+                                if !own || ops.len() < 2 {
+                                    log.push(format!("W {} Q -> ok", w));
+                                    continue;
+                                }
                                 let txt = fmt_op_list(&ops);
                                 let res = block_on(r.commit_reversed_operations(ops));
                                 let rs = match res {
